@@ -48,22 +48,26 @@ def handleH (st : St) (n : Nat) (toks : List String) : Result := Id.run do
     let h : Bastion.HCfg := { logs := s.logs.map (fun l => (l.id, l.origin)), witV := mkVerifier st.vtab dflt wsc.name wsc.hash wvVid }
     if (get "e2e").getD "0" == "1" then Bastion.serveConn Facts.maxBodyBytes cfg h (storeOf states) allow body
     else Bastion.serve cfg h (storeOf states) allow body
+  let nomodel := (get "nomodel").getD "0" == "1"
   let (rF, oF) := run false
   let (rT, _) := run true
   let mut st := st
   let mut outs : List String := []
   let mut ok := true
-  if rF != rT then
+  if rF != rT && !nomodel then
     ok := false
     outs := outs ++ [s!"DIVERGE {n} H field=oracle model=needs-unrecorded-verification impl=-"]
-  if rF.status != istatus then
+  -- nomodel=1: the witness is another process (the production binary); its signatures cannot be reproduced by the
+  -- model, so an acceptance shows as 500 (sign failed) in the model: refusals are still compared, acceptances are
+  -- judged by the monitors below only
+  if rF.status != istatus && !(nomodel && rF.status == 500 && istatus == 200) then
     ok := false
     outs := outs ++ [s!"DIVERGE {n} H field=status model={rF.status} impl={istatus}"]
   -- over a real connection net/http fills in a sniffed Content-Type when the handler set none: only a required one is compared
   if rF.ctype != ictype && !((get "e2e").getD "0" == "1" && rF.ctype.isEmpty) then
     ok := false
     outs := outs ++ [s!"DIVERGE {n} H field=ctype model={hx rF.ctype} impl={hx ictype}"]
-  if rF.body != irbody then
+  if rF.body != irbody && !(nomodel && istatus == 200) then
     ok := false
     outs := outs ++ [s!"DIVERGE {n} H field=rbody model={hx rF.body} impl={hx irbody}"]
   -- state after the request
@@ -78,7 +82,7 @@ def handleH (st : St) (n : Nat) (toks : List String) : Result := Id.run do
         | none => states
       | _, _ => states
     | none => states
-  if statesShow mpost != statesShow post then
+  if statesShow mpost != statesShow post && !(nomodel && istatus == 200) then
     ok := false
     outs := outs ++ [s!"DIVERGE {n} H field=post model={statesShow mpost} impl={statesShow post}"]
   if ok then
